@@ -31,6 +31,14 @@ def gen_cases(ctx):
                     "vertdiff": rng.choice([0.0, 0.0, 1e-4, 1e-2, 0.3]), "vadv": rng.random() < 0.5,
                     "D": rng.choice([0.0, 0.0, 100.0]), "n": rng.randint(2, 10), "seed": rng.randrange(10**6),
                     "u": rng.choice([0.0, 1.0, -1.5, 2.5])})
+    # horizontal random walk (with and without an advection scheme) carrying particles into cells of another
+    # depth during the step: the column that counts is the one of the cell occupied when the step began
+    for q in range(16 if ctx.quick else 160):
+        jmax, imax = rng.randint(7, 12), rng.randint(7, 14)
+        out.append({"k": "vert", "imax": imax, "jmax": jmax, "hseed": rng.randrange(10**6),
+                    "subgrid": ti.random_subgrid(rng, jmax, imax), "adv": ["", "", "EF", "RK4"][q % 4],
+                    "vertdiff": rng.choice([0.0, 0.3]), "vadv": True, "D": rng.choice([400.0, 1600.0]),
+                    "n": rng.randint(6, 10), "seed": rng.randrange(10**6), "u": rng.choice([0.0, 1.0])})
     for _ in range(12 if ctx.quick else 120):
         jmax, imax = rng.randint(7, 12), rng.randint(7, 14)
         out.append({"k": "history", "imax": imax, "jmax": jmax, "hseed": rng.randrange(10**6), "subgrid": ti.random_subgrid(rng, jmax, imax),
